@@ -48,7 +48,7 @@ func (a Itv) String() string {
 var bot = Itv{Bot: true}
 var top = Itv{}
 
-func bi(i int64) *big.Int { return big.NewInt(i) }
+func bi(i int64) *big.Int  { return big.NewInt(i) }
 func pow2(n uint) *big.Int { return new(big.Int).Lsh(big.NewInt(1), n) }
 
 func single(x *big.Int) Itv { return Itv{Lo: x, Hi: x} }
